@@ -5,7 +5,8 @@
     /venv/bin/python bounded/run.py --replay bounded/replays/C05-<hash>.json
 
 Exit status: 0 no failure, 1 at least one failure, 3 crash of the harness itself.
-Environment: PYVC_REPO (default /repo) names the tree whose biobalm is imported.
+Environment: PYVC_REPO (default /repo) names the tree whose biobalm is imported; PYVC_REPLAY_DIR (default
+bounded/replays) is where replay files of failing cases are written.
 """
 from __future__ import annotations
 
@@ -128,8 +129,9 @@ def run_property(prop, seed, tier, budget, jobs, out_path):
             res["failure_counts"][f["kind"]] += 1
             return
         h = case_hash(case)
-        rel = os.path.join("bounded", "replays", f"{prop}-{h}.json")
-        path = os.path.join(HERE, "replays", f"{prop}-{h}.json")
+        rdir = os.environ.get("PYVC_REPLAY_DIR")  # scratch runs (e.g. against a patched tree) keep their replay files out of bounded/replays
+        rel = os.path.join(rdir, f"{prop}-{h}.json") if rdir else os.path.join("bounded", "replays", f"{prop}-{h}.json")
+        path = rel if rdir else os.path.join(HERE, "replays", f"{prop}-{h}.json")
         os.makedirs(os.path.dirname(path), exist_ok=True)
         if not os.path.exists(path):
             with open(path, "w") as fh:
